@@ -20,6 +20,7 @@ def dispatch (j : Json) : Except String Json := do
   | "exec" => handleExec j
   | "store" => handleStore j
   | "reader" => handleReader j
+  | "task" => handleTask j
   | "git" => handleGit j
   | "cfgcheck" => handleCfgCheck j
   | "lock" => handleLock j
